@@ -1,8 +1,12 @@
 import RsslVerif.Model.Parse
+import RsslVerif.Model.ParseFull
+import RsslVerif.Model.ParseStmt
+import RsslVerif.Model.ParseDef
 import RsslVerif.Driver.Util
 /-! Line-protocol front end of the C09 model: `C09.rt <ctx> <tree>` ↦ `<printed text> ==> <re-read tree | ERR:parse>`. -/
 namespace RsslVerif.Driver.C09
-open RsslVerif.Gen.FmtTables RsslVerif.Gen.ParseTables RsslVerif.Model.Format RsslVerif.Model.Parse
+open RsslVerif.Gen.FmtTables RsslVerif.Gen.ParseTables RsslVerif.Gen.SyntaxTables RsslVerif.Model.Format RsslVerif.Model.Parse
+open RsslVerif.Model.FormatFull RsslVerif.Model.ParseFull RsslVerif.Model.FormatStmt RsslVerif.Model.ParseStmt RsslVerif.Model.FormatDef RsslVerif.Model.ParseDef
 
 inductive SExp where
   | atom (s : String)
@@ -178,31 +182,753 @@ def gluedIntPeriod : List Piece → Bool
   | _ :: rest => gluedIntPeriod rest
   | [] => false
 
+/-! ## Full model: casts, sizeof, template arguments, types -/
+
+partial def SExp.show : SExp → String
+  | .atom a => a
+  | .list l => "(" ++ " ".intercalate (l.map SExp.show) ++ ")"
+
+def nameAtoms (n : String) : List SExp :=
+  ((if n.startsWith "::" then ["::"] else []) ++
+    ((if n.startsWith "::" then (n.drop 2).toString else n).splitOn "::")).map SExp.atom
+
+/-- request spelling of a modifier wrapper -/
+def modOfWrapper (s : String) : Option TypeMod := TypeMod.all.find? (fun m => modSpell m == s)
+
+def Decl.insertBase (mk : Decl → Decl) : Decl → Decl
+  | .empty => mk .empty
+  | .name n => mk (.name n)
+  | .ptr q i => .ptr q (Decl.insertBase mk i)
+  | .ref i => .ref (Decl.insertBase mk i)
+  | .arr i s => .arr (Decl.insertBase mk i) s
+  | .arrN i => .arrN (Decl.insertBase mk i)
+
+mutual
+/-- `none` = malformed; `some none` = a node kind outside the model -/
+partial def toX : SExp → Option (Option XExpr)
+  | .list (.atom "lit" :: [.atom k, .atom v]) => (toLit k v).map fun l => some (.lit l)
+  | .list (.atom "id" :: parts) => (scopedName parts).map fun n => some (.id n)
+  | .list [.atom "un", .atom op, x] =>
+    match UnOp.ofName? op, toX x with
+    | some op, some (some x) => some (some (.un op x))
+    | some _, some none => some none
+    | _, _ => none
+  | .list [.atom "bin", .atom op, l, r] =>
+    match BinOp.ofName? op, toX l, toX r with
+    | some op, some (some l), some (some r) => some (some (.bin op l r))
+    | some _, some _, some _ => some none
+    | _, _, _ => none
+  | .list [.atom "tern", c, a, b] =>
+    match toX c, toX a, toX b with
+    | some (some c), some (some a), some (some b) => some (some (.tern c a b))
+    | some _, some _, some _ => some none
+    | _, _, _ => none
+  | .list [.atom "sub", o, i] =>
+    match toX o, toX i with
+    | some (some o), some (some i) => some (some (.sub o i))
+    | some _, some _ => some none
+    | _, _ => none
+  | .list (.atom "mem" :: o :: parts) =>
+    match toX o, scopedName parts with
+    | some (some o), some n => some (some (.mem o n))
+    | some none, some _ => some none
+    | _, _ => none
+  | .list [.atom "call", f, .list targs, .list args] =>
+    match toX f, toTArgs targs, toXArgs args with
+    | some (some f), some (some t), some (some a) => some (some (.call f t a))
+    | some _, some _, some _ => some none
+    | _, _, _ => none
+  | .list [.atom "cast", t, x] =>
+    match toTy t, toX x with
+    | some (some t), some (some x) => some (some (.cast t x))
+    | some _, some _ => some none
+    | _, _ => none
+  | .list [.atom "sizeof", a] =>
+    match toEOT a with
+    | some (some a) => some (some (.sizeof a))
+    | some none => some none
+    | none => none
+  | .list (.atom "binit" :: _) => some none
+  | _ => none
+partial def toXArgs : List SExp → Option (Option XArgs)
+  | [] => some (some .nil)
+  | x :: r =>
+    match toX x, toXArgs r with
+    | some (some e), some (some a) => some (some (.cons e a))
+    | some _, some _ => some none
+    | _, _ => none
+partial def toEOT : SExp → Option (Option TArg)
+  | .list [.atom "E", x] => (toX x).map fun o => o.map TArg.e
+  | .list [.atom "T", t] => (toTy t).map fun o => o.map TArg.t
+  | .list [.atom "B", x, t] =>
+    match toX x, toTy t with
+    | some (some x), some (some t) => some (some (.both x t))
+    | some _, some _ => some none
+    | _, _ => none
+  | _ => none
+partial def toTArgs : List SExp → Option (Option TArgs)
+  | [] => some (some .nil)
+  | x :: r =>
+    match toEOT x, toTArgs r with
+    | some (some e), some (some a) => some (some (.cons e a))
+    | some _, some _ => some none
+    | _, _ => none
+/-- `(ty n..)`, `(tyt (n name..) eot..)`, wrapped by `(<modifier> T)`, `(ptr T)`, `(ref T)`, `(arr T [e])` -/
+partial def toTy : SExp → Option (Option TyId)
+  | .list (.atom "ty" :: parts) => (scopedName parts).map fun n => some (.mk [] n .nil .empty)
+  | .list (.atom "tyt" :: .list (.atom "n" :: parts) :: targs) =>
+    match scopedName parts, toTArgs targs with
+    | some n, some (some a) => some (some (.mk [] n a .empty))
+    | some _, some none => some none
+    | _, _ => none
+  | .list [.atom "ptr", t] =>
+    (toTy t).map fun o => o.map fun | .mk m n a d => .mk m n a (Decl.insertBase (fun b => .ptr [] b) d)
+  | .list [.atom "ref", t] =>
+    (toTy t).map fun o => o.map fun | .mk m n a d => .mk m n a (Decl.insertBase (fun b => .ref b) d)
+  | .list [.atom "arr", t] =>
+    (toTy t).map fun o => o.map fun | .mk m n a d => .mk m n a (Decl.insertBase (fun b => .arrN b) d)
+  | .list [.atom "arr", t, e] =>
+    match toTy t, toX e with
+    | some (some (.mk m n a d)), some (some e) => some (some (.mk m n a (Decl.insertBase (fun b => .arr b e) d)))
+    | some _, some _ => some none
+    | _, _ => none
+  | .list [.atom w, t] =>
+    match modOfWrapper w with
+    | some md => (toTy t).map fun o => o.map fun | .mk m n a d => .mk (md :: m) n a d
+    | none => if w == "ptr+" || w == "ref+" || w == "arr+" then some none else none
+  | .list (.atom "arr+" :: _) => some none
+  | .list (.atom "named" :: _) => some none
+  | _ => none
+end
+
+/-- the chain of declarators from the outside in, as `ser_declarator_outer` walks it -/
+def Decl.wrapOuter (base : SExp) (sx : XExpr → SExp) : Decl → SExp
+  | .empty => base
+  | .name n => .list (.atom "named" :: (nameAtoms n ++ [base]))
+  | .ptr q i => Decl.wrapOuter (.list [.atom (if q.isEmpty then "ptr" else "ptr+"), base]) sx i
+  | .ref i => Decl.wrapOuter (.list [.atom "ref", base]) sx i
+  | .arr i s => Decl.wrapOuter (.list [.atom "arr", base, sx s]) sx i
+  | .arrN i => Decl.wrapOuter (.list [.atom "arr", base]) sx i
+
+mutual
+partial def sexpX : XExpr → SExp
+  | .lit l => .list (.atom "lit" :: ((showLit l).splitOn " ").map SExp.atom)
+  | .id n => .list (.atom "id" :: nameAtoms n)
+  | .un op x => .list [.atom "un", .atom op.name, sexpX x]
+  | .bin op l r => .list [.atom "bin", .atom op.name, sexpX l, sexpX r]
+  | .tern c a b => .list [.atom "tern", sexpX c, sexpX a, sexpX b]
+  | .sub o i => .list [.atom "sub", sexpX o, sexpX i]
+  | .mem o n => .list (.atom "mem" :: sexpX o :: nameAtoms n)
+  | .call f t a => .list [.atom "call", sexpX f, .list (sexpTArgs t), .list (sexpXArgs a)]
+  | .cast t x => .list [.atom "cast", sexpTy t, sexpX x]
+  | .sizeof a => .list [.atom "sizeof", sexpEOT a]
+partial def sexpXArgs : XArgs → List SExp
+  | .nil => []
+  | .cons e r => sexpX e :: sexpXArgs r
+/-- canonical as the harness's `ser_eot`: a lone name is `B` whichever way it is tagged -/
+partial def sexpEOT : TArg → SExp
+  | .e (.id n) => .list [.atom "B", sexpX (.id n), .list (.atom "ty" :: nameAtoms n)]
+  | .e x => .list [.atom "E", sexpX x]
+  | .t (.mk [] n .nil .empty) => .list [.atom "B", sexpX (.id n), .list (.atom "ty" :: nameAtoms n)]
+  | .t t => .list [.atom "T", sexpTy t]
+  | .both x t => .list [.atom "B", sexpX x, sexpTy t]
+partial def sexpTArgs : TArgs → List SExp
+  | .nil => []
+  | .cons e r => sexpEOT e :: sexpTArgs r
+partial def sexpTy : TyId → SExp
+  | .mk mods n targs d =>
+    let base : SExp := match targs with
+      | .nil => .list (.atom "ty" :: nameAtoms n)
+      | _ => .list (.atom "tyt" :: .list (.atom "n" :: nameAtoms n) :: sexpTArgs targs)
+    let withMods := mods.foldr (fun m acc => SExp.list [.atom (modSpell m), acc]) base
+    Decl.wrapOuter withMods sexpX d
+end
+
+/-- the harness's `align`: against an original that says `E` / `T`, only that half of a re-read `B` is compared -/
+partial def alignS : SExp → SExp → SExp
+  | .list o, .list n =>
+    match o, n with
+    | [.atom "E", o1], [.atom "B", n1, _] => .list [.atom "E", alignS o1 n1]
+    | [.atom "T", o1], [.atom "B", _, n2] => .list [.atom "T", alignS o1 n2]
+    | _, _ => if o.length == n.length then .list ((o.zip n).map fun (a, b) => alignS a b) else .list n
+  | _, n => n
+
+-- names the tree uses in type position (the harness's `type_names_expr`)
+mutual
+partial def typeNamesX : XExpr → List String
+  | .lit _ => []
+  | .id _ => []
+  | .un _ x => typeNamesX x
+  | .bin _ l r => typeNamesX l ++ typeNamesX r
+  | .tern c a b => typeNamesX c ++ typeNamesX a ++ typeNamesX b
+  | .sub o i => typeNamesX o ++ typeNamesX i
+  | .mem o _ => typeNamesX o
+  | .call f t a => typeNamesX f ++ typeNamesTArgs t ++ typeNamesArgs a
+  | .cast t x => typeNamesTy t ++ typeNamesX x
+  | .sizeof a => typeNamesEOT a
+partial def typeNamesArgs : XArgs → List String
+  | .nil => []
+  | .cons e r => typeNamesX e ++ typeNamesArgs r
+partial def typeNamesEOT : TArg → List String
+  | .e x => typeNamesX x
+  | .t t => typeNamesTy t
+  | .both _ _ => []
+partial def typeNamesTArgs : TArgs → List String
+  | .nil => []
+  | .cons e r => typeNamesEOT e ++ typeNamesTArgs r
+partial def typeNamesTy : TyId → List String
+  | .mk _ n targs _ => n :: typeNamesTArgs targs
+end
+
+/-- an identifier that the lexer reads as a keyword or that `parse_type_modifiers_before` takes as a modifier cannot be
+printed as a name -/
+def pieceTexts : List Piece → List String
+  | [] => []
+  | .t _ s :: r => s :: pieceTexts r
+  | .sp :: r => pieceTexts r
+
+-- embedding of the older tree type, to run both models on the trees they share
+mutual
+def embed : Expr → XExpr
+  | .lit l => .lit l
+  | .id n => .id n
+  | .un op x => .un op (embed x)
+  | .bin op l r => .bin op (embed l) (embed r)
+  | .tern c a b => .tern (embed c) (embed a) (embed b)
+  | .sub o i => .sub (embed o) (embed i)
+  | .mem o n => .mem (embed o) n
+  | .call f a => .call (embed f) .nil (embedArgs a)
+def embedArgs : Args → XArgs
+  | .nil => .nil
+  | .cons e r => .cons (embed e) (embedArgs r)
+end
+
+/-- two `&` printed without a space between them (reference to reference) lex as `&&` -/
+def gluedAmp : List Piece → Bool
+  | .t (.p .Ampersand) _ :: .t (.p .Ampersand) s :: rest => true || gluedAmp (.t (.p .Ampersand) s :: rest)
+  | _ :: rest => gluedAmp rest
+  | [] => false
+
+/-- `*` or `&` of a declarator directly followed by `[`: `parse_declarator_internal` reads an attribute there -/
+def attrShape : List Tok → Bool
+  | .p .Asterix :: .p .LeftSquareBracket :: _ => true
+  | .p .Ampersand :: .p .LeftSquareBracket :: _ => true
+  | _ :: rest => attrShape rest
+  | [] => false
+
+/-- answer of the full model to `C09.rt <ctx> <tree>` -/
+def handleRtFull (ctx : String) (e : XExpr) : String :=
+  if !e.supported then "unsupported literal" else
+  let pieces? : Option (List Piece × Terminator) :=
+    if ctx == "ret" || ctx == "stmt" then some (fmtExprX e, .Standard)
+    else if ctx == "init" then some (fmtSubX e initPrec initSide, initTerminator)
+    else if ctx == "arg" then some (fmtSubX e callArgPrec callArgSide, callArgTerminator)
+    else if ctx == "idx" then some (fmtSubX e precArraySubscript subIndexSide, subscriptTerminator)
+    else none
+  match pieces? with
+  | none => "bad-request"
+  | some (pieces, term) =>
+    let ts := toks pieces
+    if gluedAmp pieces then "unsupported reference to reference" else
+    if attrShape ts then "unsupported attribute position in a declarator" else
+    if gluedIntPeriod pieces || ts.any (fun t => match t with | .lit l => litTooLarge l | _ => false)
+    then render pieces ++ " ==> ERR:lex" else
+    let W := typeNamesX e
+    let shown (e' : XExpr) : String := (alignS (sexpX e) (sexpX e')).show
+    let back :=
+      if ctx == "arg" then
+        -- the wrapper `return g(e);` is read as a whole: the hole is the single argument of `g`
+        match xparseAll W .Standard (toks (fmtExprX (.call (.id "g") .nil (.cons e .nil)))) with
+        | some (.call (.id "g") .nil (.cons e' .nil), []) => shown e'
+        | some (other, []) => "ERR:shape arg " ++ (sexpX other).show
+        | _ => "ERR:parse"
+      else if ctx == "idx" then
+        match xparseAll W .Standard (toks (fmtExprX (.sub (.id "g") e))) with
+        | some (.sub (.id "g") e', []) => shown e'
+        | some (other, []) => "ERR:shape idx " ++ (sexpX other).show
+        | _ => "ERR:parse"
+      else
+        match xparseAll W term ts with
+        | some (e', []) => shown e'
+        | _ => "ERR:parse"
+    render pieces ++ " ==> " ++ back
+
+/-! ## Statements -/
+
+/-- three-valued reader result: malformed / outside the model / value -/
+abbrev Rd (α : Type) := Option (Option α)
+
+def rdMap {α β : Type} (f : α → β) : Rd α → Rd β := fun o => o.map (fun x => x.map f)
+
+def toTyNoDecl (s : SExp) : Rd (List TypeMod × String × TArgs) :=
+  match toTy s with
+  | some (some (.mk m n a .empty)) => some (some (m, n, a))
+  | some (some _) => none
+  | some none => some none
+  | none => none
+
+partial def toDecl : SExp → Rd Decl
+  | .list [.atom "d-empty"] => some (some .empty)
+  | .list (.atom "d-name" :: parts) => (scopedName parts).map fun n => some (.name n)
+  | .list [.atom "d-ptr", .list quals, d] =>
+    match sequenceOpt (quals.map fun | .atom q => modOfWrapper q | _ => none), toDecl d with
+    | some qs, some (some d) => some (some (.ptr qs d))
+    | some _, some none => some none
+    | _, _ => none
+  | .list [.atom "d-ref", d] => rdMap Decl.ref (toDecl d)
+  | .list [.atom "d-arr", d, e] =>
+    match toDecl d, toX e with
+    | some (some d), some (some e) => some (some (.arr d e))
+    | some _, some _ => some none
+    | _, _ => none
+  | .list [.atom "d-arrn", d] => rdMap Decl.arrN (toDecl d)
+  | .list [.atom "d-attr"] => some none
+  | _ => none
+
+mutual
+partial def toInit : SExp → Rd Init
+  | .list (.atom "agg" :: items) => rdMap Init.agg (toInits items)
+  | .list [.atom "static-sampler"] => some none
+  | s => rdMap Init.expr (toX s)
+partial def toInits : List SExp → Rd Inits
+  | [] => some (some .nil)
+  | x :: r =>
+    match toInit x, toInits r with
+    | some (some i), some (some l) => some (some (.cons i l))
+    | some _, some _ => some none
+    | _, _ => none
+end
+
+def toInitDecl : SExp → Rd InitDecl
+  | .list [.atom "idecl", d, .list [.atom "noinit"]] => rdMap (fun d => ⟨d, none⟩) (toDecl d)
+  | .list [.atom "idecl", d, .list [.atom "init", i]] =>
+    match toDecl d, toInit i with
+    | some (some d), some (some i) => some (some ⟨d, some i⟩)
+    | some _, some _ => some none
+    | _, _ => none
+  | .list (.atom "idecl" :: _ :: _ :: [.list [.atom "annot"]]) => some none
+  | _ => none
+
+def toList {α : Type} (f : SExp → Rd α) : List SExp → Rd (List α)
+  | [] => some (some [])
+  | x :: r =>
+    match f x, toList f r with
+    | some (some a), some (some l) => some (some (a :: l))
+    | some _, some _ => some none
+    | _, _ => none
+
+def toVarDef : SExp → Rd VarDef
+  | .list (.atom "vd" :: ty :: ds) =>
+    match toTyNoDecl ty, toList toInitDecl ds with
+    | some (some (m, n, a)), some (some l) => if l.isEmpty then none else some (some ⟨m, n, a, l⟩)
+    | some _, some _ => some none
+    | _, _ => none
+  | _ => none
+
+def toAttr : SExp → Rd Attr
+  | .list [.atom "attr", .atom k, .list (.atom "n" :: parts), .list args] =>
+    match scopedName parts, toXArgs args with
+    | some n, some (some a) => some (some ⟨n, a, k == "2"⟩)
+    | some _, some none => some none
+    | _, _ => none
+  | _ => none
+
+def toOptE : SExp → Rd (Option XExpr)
+  | .list [.atom "none"] => some (some none)
+  | .list [.atom "some", e] => rdMap some (toX e)
+  | _ => none
+
+mutual
+partial def toStmt : SExp → Rd Stmt
+  | .list [.atom "st", .list attrs, k] =>
+    match toList toAttr attrs, toKind k with
+    | some (some a), some (some k) => some (some (.mk a k))
+    | some _, some _ => some none
+    | _, _ => none
+  | _ => none
+partial def toKind : SExp → Rd Kind
+  | .list [.atom "empty"] => some (some .empty)
+  | .list [.atom "expr", e] => rdMap Kind.expr (toX e)
+  | .list [.atom "var", v] => rdMap Kind.var (toVarDef v)
+  | .list (.atom "block" :: ss) => rdMap Kind.block (toStmts ss)
+  | .list [.atom "if", c, t] =>
+    match toX c, toStmt t with
+    | some (some c), some (some t) => some (some (.ifS c t))
+    | some _, some _ => some none
+    | _, _ => none
+  | .list [.atom "ifelse", c, t, e] =>
+    match toX c, toStmt t, toStmt e with
+    | some (some c), some (some t), some (some e) => some (some (.ifElse c t e))
+    | some _, some _, some _ => some none
+    | _, _, _ => none
+  | .list [.atom "for", i, c, n, b] =>
+    let init : Rd ForInit := match i with
+      | .list [.atom "none"] => some (some .empty)
+      | .list [.atom "e", e] => rdMap ForInit.expr (toX e)
+      | .list [.atom "d", v] => rdMap ForInit.decl (toVarDef v)
+      | _ => none
+    match init, toOptE c, toOptE n, toStmt b with
+    | some (some i), some (some c), some (some n), some (some b) => some (some (.forS i c n b))
+    | some _, some _, some _, some _ => some none
+    | _, _, _, _ => none
+  | .list [.atom "while", c, b] =>
+    match toX c, toStmt b with
+    | some (some c), some (some b) => some (some (.whileS c b))
+    | some _, some _ => some none
+    | _, _ => none
+  | .list [.atom "do", b, c] =>
+    match toStmt b, toX c with
+    | some (some b), some (some c) => some (some (.doWhile b c))
+    | some _, some _ => some none
+    | _, _ => none
+  | .list [.atom "switch", c, b] =>
+    match toX c, toStmt b with
+    | some (some c), some (some b) => some (some (.switchS c b))
+    | some _, some _ => some none
+    | _, _ => none
+  | .list [.atom "break"] => some (some .breakS)
+  | .list [.atom "continue"] => some (some .continueS)
+  | .list [.atom "discard"] => some (some .discardS)
+  | .list [.atom "ret"] => some (some (.ret none))
+  | .list [.atom "ret", e] => rdMap (fun e => Kind.ret (some e)) (toX e)
+  | .list [.atom "case", v, n] =>
+    match toX v, toStmt n with
+    | some (some v), some (some n) => some (some (.caseS v n))
+    | some _, some _ => some none
+    | _, _ => none
+  | .list [.atom "default", n] => rdMap Kind.defaultS (toStmt n)
+  | .list (.atom "ambiguous" :: _) => some none
+  | _ => none
+partial def toStmts : List SExp → Rd Stmts
+  | [] => some (some .nil)
+  | x :: r =>
+    match toStmt x, toStmts r with
+    | some (some s), some (some l) => some (some (.cons s l))
+    | some _, some _ => some none
+    | _, _ => none
+end
+
+def sexpDecl : Decl → SExp
+  | .empty => .list [.atom "d-empty"]
+  | .name n => .list (.atom "d-name" :: nameAtoms n)
+  | .ptr q d => .list [.atom "d-ptr", .list (q.map fun m => .atom (modSpell m)), sexpDecl d]
+  | .ref d => .list [.atom "d-ref", sexpDecl d]
+  | .arr d e => .list [.atom "d-arr", sexpDecl d, sexpX e]
+  | .arrN d => .list [.atom "d-arrn", sexpDecl d]
+
+mutual
+partial def sexpInit : Init → SExp
+  | .expr e => sexpX e
+  | .agg l => .list (.atom "agg" :: sexpInits l)
+partial def sexpInits : Inits → List SExp
+  | .nil => []
+  | .cons i r => sexpInit i :: sexpInits r
+end
+
+def sexpVarDef (v : VarDef) : SExp :=
+  .list (.atom "vd" :: sexpTy (.mk v.mods v.name v.targs .empty) ::
+    v.defs.map fun d => .list [.atom "idecl", sexpDecl d.decl,
+      match d.init with
+      | none => .list [.atom "noinit"]
+      | some i => .list [.atom "init", sexpInit i]])
+
+def sexpAttr (a : Attr) : SExp :=
+  .list [.atom "attr", .atom (if a.double then "2" else "1"), .list (.atom "n" :: nameAtoms a.name), .list (sexpXArgs a.args)]
+
+def sexpOptE : Option XExpr → SExp
+  | none => .list [.atom "none"]
+  | some e => .list [.atom "some", sexpX e]
+
+mutual
+partial def sexpStmt : Stmt → SExp
+  | .mk attrs k => .list [.atom "st", .list (attrs.map sexpAttr), sexpKind k]
+partial def sexpKind : Kind → SExp
+  | .empty => .list [.atom "empty"]
+  | .expr e => .list [.atom "expr", sexpX e]
+  | .var v => .list [.atom "var", sexpVarDef v]
+  | .block b => .list (.atom "block" :: sexpStmts b)
+  | .ifS c t => .list [.atom "if", sexpX c, sexpStmt t]
+  | .ifElse c t e => .list [.atom "ifelse", sexpX c, sexpStmt t, sexpStmt e]
+  | .forS i c n b =>
+    .list [.atom "for",
+      (match i with
+       | .empty => .list [.atom "none"]
+       | .expr e => .list [.atom "e", sexpX e]
+       | .decl v => .list [.atom "d", sexpVarDef v]),
+      sexpOptE c, sexpOptE n, sexpStmt b]
+  | .whileS c b => .list [.atom "while", sexpX c, sexpStmt b]
+  | .doWhile b c => .list [.atom "do", sexpStmt b, sexpX c]
+  | .switchS c b => .list [.atom "switch", sexpX c, sexpStmt b]
+  | .breakS => .list [.atom "break"]
+  | .continueS => .list [.atom "continue"]
+  | .discardS => .list [.atom "discard"]
+  | .ret none => .list [.atom "ret"]
+  | .ret (some e) => .list [.atom "ret", sexpX e]
+  | .caseS v n => .list [.atom "case", sexpX v, sexpStmt n]
+  | .defaultS n => .list [.atom "default", sexpStmt n]
+partial def sexpStmts : Stmts → List SExp
+  | .nil => []
+  | .cons s r => sexpStmt s :: sexpStmts r
+end
+
+-- type names of a statement (the harness's `type_names_stmt`)
+def typeNamesDecl : Decl → List String
+  | .empty => []
+  | .name _ => []
+  | .ptr _ d => typeNamesDecl d
+  | .ref d => typeNamesDecl d
+  | .arr d e => typeNamesDecl d ++ typeNamesX e
+  | .arrN d => typeNamesDecl d
+
+mutual
+partial def typeNamesInit : Init → List String
+  | .expr e => typeNamesX e
+  | .agg l => typeNamesInits l
+partial def typeNamesInits : Inits → List String
+  | .nil => []
+  | .cons i r => typeNamesInit i ++ typeNamesInits r
+end
+
+def typeNamesVarDef (v : VarDef) : List String :=
+  v.name :: typeNamesTArgs v.targs ++ (v.defs.map fun d =>
+    typeNamesDecl d.decl ++ (match d.init with | none => [] | some i => typeNamesInit i)).flatten
+
+def typeNamesOpt : Option XExpr → List String
+  | none => []
+  | some e => typeNamesX e
+
+mutual
+partial def typeNamesStmt : Stmt → List String
+  | .mk attrs k => (attrs.map fun a => typeNamesArgs a.args).flatten ++ typeNamesKind k
+partial def typeNamesKind : Kind → List String
+  | .expr e => typeNamesX e
+  | .var v => typeNamesVarDef v
+  | .block b => typeNamesStmts b
+  | .ifS c t => typeNamesX c ++ typeNamesStmt t
+  | .ifElse c t e => typeNamesX c ++ typeNamesStmt t ++ typeNamesStmt e
+  | .forS i c n b =>
+    (match i with | .empty => [] | .expr e => typeNamesX e | .decl v => typeNamesVarDef v) ++
+      typeNamesOpt c ++ typeNamesOpt n ++ typeNamesStmt b
+  | .whileS c b => typeNamesX c ++ typeNamesStmt b
+  | .doWhile b c => typeNamesStmt b ++ typeNamesX c
+  | .switchS c b => typeNamesX c ++ typeNamesStmt b
+  | .ret (some e) => typeNamesX e
+  | .caseS v n => typeNamesX v ++ typeNamesStmt n
+  | .defaultS n => typeNamesStmt n
+  | _ => []
+partial def typeNamesStmts : Stmts → List String
+  | .nil => []
+  | .cons s r => typeNamesStmt s ++ typeNamesStmts r
+end
+
+/-- every run of spaces collapsed, none at the ends -/
+def collapseSp (ps : List Piece) : List Piece :=
+  let rec go : List Piece → Bool → List Piece
+    | [], _ => []
+    | .sp :: r, true => go r true
+    | .sp :: r, false => .sp :: go r true
+    | p :: r, _ => p :: go r false
+  let trimmed := go ps true
+  (trimmed.reverse.dropWhile fun | .sp => true | _ => false).reverse
+
+def handleSt (s : Stmt) : String :=
+  let pieces := fmtStmt s
+  let ts := toks pieces
+  if pieces.any (fun p => match p with | .t (.lit _) "?" => true | _ => false) then "unsupported literal" else
+  if gluedAmp pieces then "unsupported reference to reference" else
+  if attrShape ts then "unsupported attribute position in a declarator" else
+  let text := render (collapseSp pieces)
+  if gluedIntPeriod pieces || ts.any (fun t => match t with | .lit l => litTooLarge l | _ => false)
+  then text ++ " ==> ERR:lex" else
+  let W := typeNamesStmt s
+  -- the body of `void f() { … }`: the statement is followed by the closing brace
+  match parseStmt W (40 * ts.length + 80) (ts ++ [.p .RightBrace]) with
+  | .ok s' [.p .RightBrace] => text ++ " ==> " ++ (alignS (sexpStmt s) (sexpStmt s')).show
+  | .ok _ _ => text ++ " ==> ERR:shape"
+  | .fail => text ++ " ==> ERR:parse"
+  | .panic => text ++ " ==> PANIC"
+
+/-! ## Function and struct definitions -/
+
+def toSem : SExp → Rd (Option String)
+  | .list [.atom "nosem"] => some (some none)
+  | .list [.atom "sem", .atom n] => some (some (some n))
+  | .list [.atom "annot"] => some none
+  | _ => none
+
+def toParam : SExp → Rd Param
+  | .list [.atom "param", ty, d, sem, dflt] =>
+    let dv : Rd (Option XExpr) := match dflt with
+      | .list [.atom "nodef"] => some (some none)
+      | .list [.atom "def", e] => rdMap some (toX e)
+      | _ => none
+    match toTyNoDecl ty, toDecl d, toSem sem, dv with
+    | some (some (m, n, a)), some (some d), some (some s), some (some e) => some (some ⟨m, n, a, d, s, e⟩)
+    | some _, some _, some _, some _ => some none
+    | _, _, _, _ => none
+  | _ => none
+
+def toFn : SExp → Rd FnDef
+  | .list [.atom "fn", .list attrs, ty, .atom name, .list params, sem, body, .list flags] =>
+    let b : Rd (Option Stmts) := match body with
+      | .list [.atom "nobody"] => some (some none)
+      | .list (.atom "body" :: ss) => rdMap some (toStmts ss)
+      | _ => none
+    match toList toAttr attrs, toTyNoDecl ty, toList toParam params, toSem sem, b with
+    | some (some a), some (some (m, n, ta)), some (some ps), some (some s), some (some b) =>
+      if flags.isEmpty then some (some ⟨a, m, n, ta, name, ps, s, b⟩) else some none
+    | some _, some _, some _, some _, some _ => some none
+    | _, _, _, _, _ => none
+  | _ => none
+
+def toMember : SExp → Rd Member
+  | .list [.atom "member", .list attrs, vd] =>
+    match toList toAttr attrs, toVarDef vd with
+    | some (some a), some (some v) => some (some (.var a v))
+    | some _, some _ => some none
+    | _, _ => none
+  | .list [.atom "method", f] => rdMap Member.method (toFn f)
+  | _ => none
+
+def toStructDef : SExp → Rd StructDef
+  | .list [.atom "struct", .atom name, .list members, .list flags] =>
+    match toList toMember members with
+    | some (some ms) => if flags.isEmpty then some (some ⟨name, ms⟩) else some none
+    | some none => some none
+    | none => none
+  | _ => none
+
+def sexpSem : Option String → SExp
+  | none => .list [.atom "nosem"]
+  | some n => .list [.atom "sem", .atom n]
+
+def sexpParam (p : Param) : SExp :=
+  .list [.atom "param", sexpTy (.mk p.mods p.name p.targs .empty), sexpDecl p.decl, sexpSem p.sem,
+    match p.dflt with
+    | none => .list [.atom "nodef"]
+    | some e => .list [.atom "def", sexpX e]]
+
+def sexpFn (f : FnDef) : SExp :=
+  .list [.atom "fn", .list (f.attrs.map sexpAttr), sexpTy (.mk f.rmods f.rname f.rtargs .empty), .atom f.name,
+    .list (f.params.map sexpParam), sexpSem f.sem,
+    (match f.body with
+     | none => .list [.atom "nobody"]
+     | some b => .list (.atom "body" :: sexpStmts b)),
+    .list []]
+
+def sexpMember : Member → SExp
+  | .var attrs v => .list [.atom "member", .list (attrs.map sexpAttr), sexpVarDef v]
+  | .method f => .list [.atom "method", sexpFn f]
+
+def sexpStructDef (s : StructDef) : SExp :=
+  .list [.atom "struct", .atom s.name, .list (s.members.map sexpMember), .list []]
+
+def typeNamesFn (f : FnDef) : List String :=
+  f.rname :: typeNamesTArgs f.rtargs ++ (f.params.map fun p =>
+    p.name :: typeNamesTArgs p.targs ++ typeNamesDecl p.decl ++ typeNamesOpt p.dflt).flatten ++
+  (match f.body with | none => [] | some b => typeNamesStmts b)
+
+def typeNamesMember : Member → List String
+  | .var _ v => v.name :: typeNamesTArgs v.targs
+  | .method f => typeNamesFn f
+
+def defGuard (pieces : List Piece) : Option String :=
+  let ts := toks pieces
+  if pieces.any (fun p => match p with | .t (.lit _) "?" => true | _ => false) then some "unsupported literal" else
+  if gluedAmp pieces then some "unsupported reference to reference" else
+  if attrShape ts then some "unsupported attribute position in a declarator" else none
+
+def handleDef (sx : SExp) : String :=
+  match sx with
+  | .list (.atom "fn" :: _) =>
+    match toFn sx with
+    | none => "bad-request"
+    | some none => "unsupported node kind"
+    | some (some f) =>
+      let pieces := fmtFn f
+      match defGuard pieces with
+      | some msg => msg
+      | none =>
+        let ts := toks pieces
+        let text := render (collapseSp pieces)
+        if gluedIntPeriod pieces || ts.any (fun t => match t with | .lit l => litTooLarge l | _ => false)
+        then text ++ " ==> ERR:lex" else
+        match parseFn (typeNamesFn f) (40 * ts.length + 80) (ts ++ [.p .Eof]) with
+        | .ok f' [.p .Eof] => text ++ " ==> " ++ (alignS (sexpFn f) (sexpFn f')).show
+        | .ok _ _ => text ++ " ==> ERR:shape"
+        | .fail => text ++ " ==> ERR:parse"
+        | .panic => text ++ " ==> PANIC"
+  | .list (.atom "struct" :: _) =>
+    match toStructDef sx with
+    | none => "bad-request"
+    | some none => "unsupported node kind"
+    | some (some s) =>
+      let pieces := fmtStruct s
+      match defGuard pieces with
+      | some msg => msg
+      | none =>
+        let ts := toks pieces
+        let text := render (collapseSp pieces)
+        if gluedIntPeriod pieces || ts.any (fun t => match t with | .lit l => litTooLarge l | _ => false)
+        then text ++ " ==> ERR:lex" else
+        match parseStruct ((s.members.map typeNamesMember).flatten) (40 * ts.length + 80) (ts ++ [.p .Eof]) with
+        | .ok s' [.p .Eof] => text ++ " ==> " ++ (alignS (sexpStructDef s) (sexpStructDef s')).show
+        | .ok _ _ => text ++ " ==> ERR:shape"
+        | .fail => text ++ " ==> ERR:parse"
+        | .panic => text ++ " ==> PANIC"
+  | _ => "bad-request"
+
+/-- answer of the first model (`Model/Format.lean` + `Model/Parse.lean`), `none` where it does not apply -/
+def handleRtCore (ctx : String) (e : Expr) : Option String :=
+  if !e.supported then some "unsupported literal" else
+  let pieces? : Option (List Piece × Terminator) :=
+    if ctx == "ret" || ctx == "stmt" then some (fmtExpr e, .Standard)
+    else if ctx == "init" then some (fmtInit e, .Sequence)
+    else if ctx == "arg" then some (fmtSub e callArgPrec callArgSide, callArgTerminator)
+    else if ctx == "idx" then some (fmtSub e precArraySubscript subIndexSide, subscriptTerminator)
+    else none
+  match pieces? with
+  | none => some "bad-request"
+  | some (pieces, term) =>
+    let ts := toks pieces
+    if templateShape ts then none else
+    if gluedIntPeriod pieces || ts.any (fun t => match t with | .lit l => litTooLarge l | _ => false)
+    then some (render pieces ++ " ==> ERR:lex") else
+    let back := match parseAll term ts with
+      | some (e', []) => showExpr e'
+      | _ => "ERR:parse"
+    some (render pieces ++ " ==> " ++ back)
+
 def handle (op : String) (args : List String) : String :=
   match op, args with
   | "C09.rt", [ctx, tree] =>
-    match (readSExp (sexpTokens tree)).bind toExpr with
+    match readSExp (sexpTokens tree) with
     | none => "bad-request"
-    | some none => "unsupported node kind"
-    | some (some e) =>
-      if !e.supported then "unsupported literal" else
-      let pieces? : Option (List Piece × Terminator) :=
-        if ctx == "ret" || ctx == "stmt" then some (fmtExpr e, .Standard)
-        else if ctx == "init" then some (fmtInit e, .Sequence)
-        else if ctx == "arg" then some (fmtSub e callArgPrec callArgSide, callArgTerminator)
-        else if ctx == "idx" then some (fmtSub e precArraySubscript subIndexSide, subscriptTerminator)
-        else none
-      match pieces? with
+    | some sx =>
+      match toX sx with
       | none => "bad-request"
-      | some (pieces, term) =>
-        let ts := toks pieces
-        if templateShape ts then "unsupported template-argument attempt" else
-        if gluedIntPeriod pieces || ts.any (fun t => match t with | .lit l => litTooLarge l | _ => false)
-        then render pieces ++ " ==> ERR:lex" else
-        let back := match parseAll term ts with
-          | some (e', []) => showExpr e'
-          | _ => "ERR:parse"
-        render pieces ++ " ==> " ++ back
+      | some none => "unsupported node kind"
+      | some (some e) =>
+        let full := handleRtFull ctx e
+        -- trees of the first model: both models must give the same answer
+        match toExpr sx with
+        | some (some e0) =>
+          match handleRtCore ctx e0 with
+          | some core => if core == full then full else "MODELS-DIFFER core=[" ++ core ++ "] full=[" ++ full ++ "]"
+          | none => full
+        | _ => full
+  | "C09.st", [tree] =>
+    match readSExp (sexpTokens tree) with
+    | none => "bad-request"
+    | some sx =>
+      match toStmt sx with
+      | none => "bad-request"
+      | some none => "unsupported node kind"
+      | some (some st) => handleSt st
+  | "C09.def", [tree] =>
+    match readSExp (sexpTokens tree) with
+    | none => "bad-request"
+    | some sx => handleDef sx
   | _, _ => "unsupported-op"
 
 end RsslVerif.Driver.C09
